@@ -625,7 +625,32 @@ def sanitized_check(pid, tier, seed, spec):
             merged["inconclusive"] += fi + m2["inconclusive"]
             merged["evaluations"] += m2["evaluations"] + fs.get("executions", 0)
             dh += merge_hashes(vmain, [os.path.join(od, "fuzzreplay")])
-        return finish(pid, tier, seed, spec, merged, problems, dh, time.time() - t0, {"sanitizers": san})
+        extra_cov = {"sanitizers": san}
+        if spec.get("derived_values"):
+            # the same experiment for derived Encode impls, in the generated schema crate(s)
+            crates = []
+            for (name, gseed, ntypes, nchains) in gen_specs(tier, seed)[:2]:
+                binary = build_gen_crate(name, gseed, ntypes, nchains)
+                wd = os.path.join(od, "gen-" + name)
+                reports, p2 = run_workers(binary, spec["sub"], tier, seed, NCPU, wd, extra=["--values", str(spec["derived_values"][tier])], timeout=3600)
+                m2 = merge_reports(reports)
+                for sig, v in m2["violations"].items():
+                    e = merged["violations"].setdefault(sig, {"count": 0, "examples": []})
+                    e["count"] += v["count"]
+                    for ex in v["examples"][:2]:
+                        if ex.get("replay"):
+                            ex["replay"][0] = "%s@%s,%d,%d,%d" % (ex["replay"][0], name, gseed, ntypes, nchains)
+                        e["examples"].append(ex)
+                for k, v in m2["counters"].items():
+                    merged["counters"][k] = merged["counters"].get(k, 0) + v
+                merged["evaluations"] += m2["evaluations"]
+                merged["inconclusive"] += m2["inconclusive"]
+                merged["samples"] += m2["samples"][:2]
+                problems += p2
+                dh += merge_hashes(vmain, [wd])
+                crates.append({"name": name, "generator_seed": gseed, "types_requested": ntypes})
+            extra_cov["generated_crates"] = crates
+        return finish(pid, tier, seed, spec, merged, problems, dh, time.time() - t0, extra_cov)
     finally:
         shutil.rmtree(od, ignore_errors=True)
 
@@ -740,11 +765,13 @@ CHECKS["C13"] = {
     "runner": sanitized_check,
     "miri_ops": {"quick": 320, "thorough": 4000},
     "asan": True,
+    "derived_values": {"quick": 300, "thorough": 3000},
+    "engine": "vmain+vgen",
     "level": "exploration",
     "technique": "runtime monitoring with sanitizers: canary-guarded sinks vs a (capacity, accepted) model; Miri and ASan on the slice writers",
-    "rule": "values of every built-in type from the boundary-dense generators x every capacity 0..=len+1 (sampled for encodings > 200 bytes) x {&mut [u8], Cursor<&mut [u8]>, Cursor<Box<[u8]>>, Writer<io::Cursor<&mut [u8]>>, Cursor<[u8; N]> for 10 N, &mut Vec, Writer<Vec>}; plus all sequences of three raw write_all calls with lengths 0..=cap+1 for capacities 0..=12 on every cursor kind; distinct = distinct hashed (type, encoding) x capacities + enumerated raw sequences",
+    "rule": "values of every built-in type from the boundary-dense generators x every capacity 0..=len+1 (sampled for encodings > 200 bytes) x {&mut [u8], Cursor<&mut [u8]>, Cursor<Box<[u8]>>, Writer<io::Cursor<&mut [u8]>>, Cursor<[u8; N]> for 10 N, &mut Vec, Writer<Vec>}; plus all sequences of three raw write_all calls with lengths 0..=cap+1 for capacities 0..=12 on every cursor kind; plus values of every derived type of the generated schema crates (see C08) x every capacity into canary-guarded slices; distinct = distinct hashed (type, encoding) x capacities + enumerated raw sequences",
     "level_text": "Every sink sits inside a larger buffer filled with a canary pattern, so an overrun is observed directly; success/failure is compared with the exact rule (fits iff encoding length <= capacity), the bytes left behind with the Vec encoding, the cursor position with the bytes accepted. Raw write sequences are enumerated exhaustively for small capacities. The slice writers additionally run under Miri (both tiers) and ASan (thorough).",
-    "level_note": "Trusted: the Vec<u8> encoding as reference (its correctness is C03's subject). Values of derived types are covered through the generated-schema crates of C07-C10 via len()/exact-slice experiments.",
+    "level_note": "Trusted: the Vec<u8> encoding as reference (its correctness is C03's subject). Values of derived types (the C08 generators) run the slice-sink experiment at every capacity in the generated schema crates.",
     "assumptions": COMMON_ASSUMPTIONS,
 }
 
